@@ -251,9 +251,11 @@ fn spaces(prop: Prop, tier: Tier) -> Vec<Space> {
 fn run_program_property(cli: &Cli, prop: Prop) -> ! {
     let report = Report::new(cli);
     let cfg = cfg_for(prop, cli.tier);
-    if let Some(path) = &cli.replay {
-        let doc = mc_core::load_replay(path);
-        let (shape, body) = check::witness_parse(&doc["witness"]).unwrap_or_else(|| mc_core::machinery_error("replay file has no program witness"));
+    // artefacts with a program witness are re-evaluated alone; any other artefact of this engine
+    // is replayed by re-running the enumeration with the witness as a filter (mc_core)
+    if let Some((doc, (shape, body))) = cli.replay.as_ref().map(|p| mc_core::load_replay(p)).and_then(|d| check::witness_parse(&d["witness"]).map(|w| (d, w))) {
+        let _ = &doc;
+        report.disable_replay_filter();
         println!("replaying {} : {}", shape.name(), body_text(&body));
         let mut st = Stats::default();
         let ok = check::check_program(&cfg, &report, &mut st, shape, &body);
